@@ -268,11 +268,11 @@ func forwarderFromConfig(pool *transport.TransportPool, fc flush.Coordinator, kv
 }
 
 func newForwarder(c comp, rec *fx.Recorder) (*statsd.HttpForwarderHandlerV2, *bridge, error) {
-	srv, err := web.NewHttpServer(fx.Quiet(), rec, "rx", "127.0.0.1:0", false, false, true, false, nil, nil)
+	rt, err := fx.IngestionRouter(rec, "rx")
 	if err != nil {
 		return nil, nil, err
 	}
-	br := &bridge{router: srv.Router}
+	br := &bridge{router: rt}
 	v := viper.New()
 	pool := transport.NewTransportPool(fx.Quiet(), v)
 	hc, _ := pool.Get("default")
@@ -631,7 +631,7 @@ func refDecode(path, enc string, body []byte) bool {
 
 func runCorrupt() {
 	rec := &fx.Recorder{}
-	srv, err := web.NewHttpServer(fx.Quiet(), rec, "rx", "127.0.0.1:0", false, false, true, false, nil, nil)
+	rt, err := fx.IngestionRouter(rec, "rx")
 	if err != nil {
 		panic(err)
 	}
@@ -672,7 +672,7 @@ func runCorrupt() {
 		rp := map[string]any{"path": path, "enc": enc, "body": body}
 		if p := func() (p any) {
 			defer func() { p = recover() }()
-			srv.Router.ServeHTTP(w, req)
+			rt.ServeHTTP(w, req)
 			return nil
 		}(); p != nil {
 			// net/http would drop the connection: the client gets no status at all
